@@ -144,9 +144,8 @@ class Gen:
 		self.small = mode in ('pytype', 'search')   # operands of <<, >>, sequence *, range() stay small enough to evaluate
 		self.pure = mode == 'pytype'
 		self.hetero_ok = hetero_ok
-		# `session['hetero']` = how many list literals with elements of different classes (e.g. `[a, None]`) may still be
-		# emitted in this inference session: the second one raises Errors.Never in the real code (finding
-		# list-literal-shared-union) and would mask everything generated after it
+		# `session['hetero']` (optional) bounds how many list literals mixing classes (`[a, None]`) are emitted per inference
+		# session; it was needed while the second one raised Errors.Never (repaired in 401dc97) and is unused by default
 		self.session = session
 		self.in_comp = 0
 		self.fresh = 0
